@@ -124,9 +124,10 @@ theorem leafRule_plain {s o : Node} (hs : plainT s = true) (ho : plainT o = true
     ∃ r, leafRule s o = (r, false) ∧ plainT r = true ∧ native r = native o := by
   have hfs := plainT_flags hs
   have hfo := plainT_flags ho
-  refine ⟨o.setFlags (replaceOtherFlags o.flags s.flags), ?_, ?_, native_setFlags _ _⟩
+  refine ⟨propagate (o.setFlags (replaceOtherFlags o.flags s.flags)), ?_, ?_, ?_⟩
   · simp [leafRule, hasPrio_plain hfs hfo]
-  · exact plainT_setFlags ho (replaceOtherFlags_plain hfo hfs).1
+  · exact plainT_propagate (plainT_setFlags ho (replaceOtherFlags_plain hfo hfs).1)
+  · rw [nativeOf_propagate]; exact native_setFlags _ _
 
 theorem eDel_list_plain {f : Flags} {cs} (hf : flagsPlain f = true) : eDel (.comp f .list cs) = true := by
   rw [flagsPlain_iff] at hf
@@ -151,7 +152,8 @@ theorem filterNode_never_comp (cond : Path → Node → Bool) (hc : ∀ p m, pla
 /-- a list `other` is deleting: everything of `self` is pruned and `other` takes its place -/
 theorem compMerge_listOther (rec : Node → Node → Except Err (Node × Bool)) {sf sk scs of ocs}
     (hs : plainT (.comp sf sk scs) = true) (ho : plainT (.comp of .list ocs) = true) :
-    compMerge rec sf sk scs (.comp of .list ocs) = .ok (.comp (replaceOtherFlags of sf) .list ocs, false) := by
+    compMerge rec sf sk scs (.comp of .list ocs) =
+      .ok (propagate (.comp (replaceOtherFlags of sf) .list ocs), false) := by
   obtain ⟨hsf, hsk, _⟩ := plainT_comp hs
   obtain ⟨hof, _, _⟩ := plainT_comp ho
   have hsk' : sk = .dict ∨ sk = .list := by rcases hsk with h | h; exact .inl h; exact .inr h.1
